@@ -134,6 +134,8 @@ pub fn next_down(f: f64) -> f64 {
 const ATOM_WORDS: &[&str] = &[
     "", "a", "b", "ok", "error", "true", "false", "nil", "undefined", "rex", "node@host", "Elixir.Foo",
     "é", "日本", "𝔘", "a b", "x@y.z", "ÿ", "\u{80}", "zz",
+    // Latin-1 text whose byte string is also well-formed UTF-8 (C3 A9, C2 B5, E2 82 AC ...)
+    "Ã©", "Âµ", "â\u{82}¬", "cafÃ©", "Ã\u{9f}x",
 ];
 
 pub fn gen_atom(rng: &mut Rng, cfg: &GenCfg) -> String {
@@ -160,6 +162,11 @@ pub fn gen_atom(rng: &mut Rng, cfg: &GenCfg) -> String {
                 s.push('y');
             }
             s
+        }
+        5 => {
+            // the bytes of some UTF-8 text, read as Latin-1 characters
+            let src: String = (0..1 + rng.below(6)).map(|_| *rng.pick(&['é', 'ß', 'µ', 'ü', '€', 'a', '日'])).collect();
+            src.bytes().map(|b| b as char).collect()
         }
         2..=4 => {
             let n = rng.below(12);
